@@ -137,7 +137,13 @@ Prod(sh) == ProdFrom(sh, 1)
 RowsEqual(sh, cells) == /\ Len(sh) >= 2 /\ sh[1] >= 2
                         /\ LET inner == Prod(sh) \div sh[1]
                            IN \A p \in 1..Len(cells) : cells[p] = cells[((p - 1) % inner) + 1]
-Layouts(sh, cells) == { "C", "S2", "NEG" } \cup (IF Len(sh) >= 2 THEN { "F", "TV" } ELSE {})
+NonUnit(sh) == Cardinality({ p \in DOMAIN sh : sh[p] > 1 })
+\* a layout is offered only where it is a real layout (an axis of extent 1 has no stride to speak of)
+Layouts(sh, cells) == { "C" }
+                      \cup (IF sh[Len(sh)] >= 2 THEN { "S2" } ELSE {})
+                      \cup (IF sh[1] >= 2 THEN { "NEG" } ELSE {})
+                      \cup (IF NonUnit(sh) >= 2 THEN { "F" } ELSE {})
+                      \cup (IF NonUnit(sh) >= 2 /\ sh[1] >= 2 THEN { "TV" } ELSE {})
                       \cup (IF RowsEqual(sh, cells) THEN { "BC" } ELSE {})
 ND(dt, sh, lay, cells) == [k |-> "nd", dt |-> dt, shape |-> sh, lay |-> lay, cells |-> cells]
 NDs == UNION { UNION { { ND(dt, sh, lay, c) : lay \in Layouts(sh, c), dt \in DTypes } : sh \in Shapes6 } : c \in Cells6 }
